@@ -218,6 +218,32 @@ theorem straightEff_loops (np : String → Option Prog) (o : Op) : KeepsLoops (f
     | ok v => exact (swapCellRef_loops idx v m1).trans h1
     | err e => exact h1
     | panic s => exact h1
+  case initLocal idx =>
+    have h1 := popData_loops m
+    rcases hp : m.popData with ⟨o1, m1⟩
+    rw [hp] at h1
+    cases o1 with
+    | ok v =>
+      simp only []
+      split
+      · split
+        · simp only [logStep]; exact h1
+        · exact h1
+      · exact h1
+    | err e => exact h1
+    | panic s => exact h1
+  case loadLocal i =>
+    cases ht : m.topFrame with
+    | ok f =>
+      simp only []
+      cases hl : f.locals[i]? with
+      | some v => exact pushData_loops _ m
+      | none => exact SameBelow.refl _
+    | err e => exact SameBelow.refl _
+    | panic s => exact SameBelow.refl _
+
+theorem popReturn_loopsEq (m : Mach) : m.popReturn.2.loops = m.loops := by
+  simp only [popReturn]; split <;> (try split) <;> rfl
 
 theorem popCond_loops : KeepsLoops popCond := by
   intro m
@@ -297,9 +323,10 @@ theorem KeepsR.trans_left {m m1 : Mach} {r : Res} (h1 : SameBelow m1.loops m.loo
 theorem keepsR_bad {m : Mach} {r : Res} (h : r.good = none) : KeepsR m r := fun m' hm => by rw [h] at hm; cases hm
 
 /-- statements keep the loop stack; the iterations of a counted loop end with its record popped -/
-theorem loops_aux (np : String → Option Prog) : ∀ f,
-    (∀ st m k r, WFS st k r = true → KeepsR m (evalS np f st m)) ∧
-    (∀ tl a m m', WFS a true false = true → doIter np f tl a m = .ok m' → m'.loops = m.loops.tail) := by
+theorem loops_aux (np : String → Option Prog) (F : FunTab)
+    (hFw : ∀ addr body ts, F addr = some (body, ts) → WFS body false false = true) : ∀ f,
+    (∀ st m k r, WFS st k r = true → KeepsR m (evalS np F f st m)) ∧
+    (∀ tl a m m', WFS a true false = true → doIter np F f tl a m = .ok m' → m'.loops = m.loops.tail) := by
   intro f
   induction f with
   | zero =>
@@ -316,7 +343,7 @@ theorem loops_aux (np : String → Option Prog) : ∀ f,
         simp only [WFS, Bool.and_eq_true] at hw
         simp only [evalS]
         have ha := ihE a m k r hw.1
-        generalize evalS np f a m = ra at ha ⊢
+        generalize evalS np F f a m = ra at ha ⊢
         cases ra with
         | ok m1 => exact KeepsR.trans_left (ha m1 rfl) (ihE b m1 k r hw.2)
         | err e t m1 => exact ha
@@ -340,7 +367,7 @@ theorem loops_aux (np : String → Option Prog) : ∀ f,
         simp only [WFS] at hw
         simp only [evalS]
         have ha := ihE a m false false hw
-        generalize evalS np f a m = ra at ha ⊢
+        generalize evalS np F f a m = ra at ha ⊢
         cases ra with
         | ok m1 =>
           refine KeepsR.trans_left (ha m1 rfl) ?_
@@ -358,14 +385,14 @@ theorem loops_aux (np : String → Option Prog) : ∀ f,
         simp only [WFS, Bool.and_eq_true] at hw
         simp only [evalS]
         have hc := ihE c m false false hw.1
-        generalize evalS np f c m = rc at hc ⊢
+        generalize evalS np F f c m = rc at hc ⊢
         cases rc with
         | ok m1 =>
           refine KeepsR.trans_left (hc m1 rfl) ?_
           refine keepsR_ofR _ _ _ (popCond_loops m1) (fun b m2 _ => ?_)
           split
           · have ha := ihE a m2 true false hw.2
-            generalize evalS np f a m2 = ra at ha ⊢
+            generalize evalS np F f a m2 = ra at ha ⊢
             cases ra with
             | ok m3 => exact KeepsR.trans_left (ha m3 rfl) (ihE _ m3 k r hw0)
             | brk t m3 => intro m' h; cases h; exact ha m3 rfl
@@ -384,7 +411,7 @@ theorem loops_aux (np : String → Option Prog) : ∀ f,
         simp only [WFS] at hw
         simp only [evalS]
         have ha := ihE a m true false hw
-        generalize evalS np f a m = ra at ha ⊢
+        generalize evalS np F f a m = ra at ha ⊢
         cases ra with
         | ok m1 => exact KeepsR.trans_left (ha m1 rfl) (ihE _ m1 k r hw0)
         | brk t m1 => intro m' h; cases h; exact ha m1 rfl
@@ -400,9 +427,9 @@ theorem loops_aux (np : String → Option Prog) : ∀ f,
         · -- the iterations run on the stack with the record pushed and end with it popped
           intro m' hm
           have hd1 := ihD tl a (m1.pushLoop l)
-          have hnb := (no_brk_aux np f).2 tl a (m1.pushLoop l)
-          have hne := (no_exit_aux np f).2 tl a (m1.pushLoop l) hw
-          generalize doIter np f tl a (m1.pushLoop l) = rd at hm hd1 hnb hne
+          have hnb := (no_brk_aux np F f).2 tl a (m1.pushLoop l)
+          have hne := (no_exit_aux np F f).2 tl a (m1.pushLoop l) hw
+          generalize doIter np F f tl a (m1.pushLoop l) = rd at hm hd1 hnb hne
           cases rd with
           | ok m2 =>
             cases hm
@@ -420,7 +447,7 @@ theorem loops_aux (np : String → Option Prog) : ∀ f,
         simp only [WFS] at hw
         simp only [evalS]
         have ha := ihE a m k true hw
-        generalize evalS np f a m = ra at ha ⊢
+        generalize evalS np F f a m = ra at ha ⊢
         cases ra with
         | exitCase m1 => intro m' h; cases h; exact ha m1 rfl
         | ok m1 => exact ha
@@ -434,7 +461,7 @@ theorem loops_aux (np : String → Option Prog) : ∀ f,
         refine keepsR_ofR _ _ _ (caseTest_loops m) (fun hit m1 _ => ?_)
         split
         · have hb := ihE body m1 k false hw.2
-          generalize evalS np f body m1 = rb at hb ⊢
+          generalize evalS np F f body m1 = rb at hb ⊢
           cases rb with
           | ok m2 => intro m' h; cases h; exact hb m2 rfl
           | err e t m2 => exact hb
@@ -443,9 +470,33 @@ theorem loops_aux (np : String → Option Prog) : ∀ f,
           | exitCase m2 => exact hb
           | timeout => exact hb
         · intro m' h; cases h; exact SameBelow.refl _
+      | defn tc ts body => simp only [evalS]; intro m' h; cases h; exact SameBelow.refl _
+      | call t addr ret =>
+        simp only [evalS]
+        split
+        · rename_i body ts hFa
+          have hb := ihE body (m.pushReturn { fnAddr := addr, returnTo := ret, locals := [] }) false false (hFw addr body ts hFa)
+          generalize evalS np F f body (m.pushReturn { fnAddr := addr, returnTo := ret, locals := [] }) = rb at hb ⊢
+          cases rb with
+          | ok m2 =>
+            simp only [ofR]
+            have h2 := hb m2 rfl
+            have h3 := popReturn_loopsEq m2
+            rcases hp : m2.popReturn with ⟨o, m3⟩
+            rw [hp] at h3
+            cases o with
+            | ok fr => simp only []; intro m' h; cases h; exact (SameBelow.of_eq h3).trans h2
+            | err e => simp only []; intro m' h; cases h
+            | panic p => simp only []; intro m' h; cases h
+          | err e t m2 => intro m' h; cases h
+          | panic p t m2 => intro m' h; cases h
+          | brk t m2 => intro m' h; cases h
+          | exitCase m2 => intro m' h; cases h
+          | timeout => intro m' h; cases h
+        · intro m' h; cases h
     · simp only [doIter] at hd
       have ha := ihE a m true false hw
-      generalize evalS np f a m = ra at ha hd
+      generalize evalS np F f a m = ra at ha hd
       cases ra with
       | ok m1 =>
         simp only [ofR] at hd
@@ -489,14 +540,16 @@ theorem loops_aux (np : String → Option Prog) : ∀ f,
       | timeout => cases hd
 
 /-- a statement that completes leaves the loop stack as deep as it found it, with the same records below the top -/
-theorem completion_keeps_loops (np : String → Option Prog) (f : Nat) (st : Stmt) (m m' : Mach) (k r : Bool)
-    (hw : WFS st k r = true) (h : evalS np f st m = .ok m') : SameBelow m'.loops m.loops :=
-  (loops_aux np f).1 st m k r hw m' (by rw [h]; rfl)
+theorem completion_keeps_loops (np : String → Option Prog) (F : FunTab)
+    (hFw : ∀ addr body ts, F addr = some (body, ts) → WFS body false false = true) (f : Nat) (st : Stmt) (m m' : Mach) (k r : Bool)
+    (hw : WFS st k r = true) (h : evalS np F f st m = .ok m') : SameBelow m'.loops m.loops :=
+  (loops_aux np F hFw f).1 st m k r hw m' (by rw [h]; rfl)
 
 /-- **a terminated counted loop leaves no loop index behind**: when `do … loop` completes — after any number of
     iterations, zero included, normally or by `break` — the loop stack is exactly the one before the loop -/
-theorem counted_loop_leaves_no_index (np : String → Option Prog) (f : Nat) (td tl : Nat) (a : Stmt) (m m' : Mach)
-    (hw : WFS a true false = true) (h : evalS np f (.doLoop td tl a) m = .ok m') : m'.loops = m.loops := by
+theorem counted_loop_leaves_no_index (np : String → Option Prog) (F : FunTab)
+    (hFw : ∀ addr body ts, F addr = some (body, ts) → WFS body false false = true) (f : Nat) (td tl : Nat) (a : Stmt) (m m' : Mach)
+    (hw : WFS a true false = true) (h : evalS np F f (.doLoop td tl a) m = .ok m') : m'.loops = m.loops := by
   cases f with
   | zero => simp [evalS] at h
   | succ f =>
@@ -508,7 +561,7 @@ theorem counted_loop_leaves_no_index (np : String → Option Prog) (f : Nat) (td
     | ok l =>
       simp only at h h1
       split at h
-      · have := (loops_aux np f).2 tl a (m1.pushLoop l) m' hw h
+      · have := (loops_aux np F hFw f).2 tl a (m1.pushLoop l) m' hw h
         simp only [pushLoop, logStep, List.tail_cons] at this
         rw [this, h1]
       · cases h; exact h1
